@@ -106,6 +106,9 @@ def run_workers(pid, units, tier, seed, nworkers, unit_timeout):
     env["VERIF_TIER"] = tier
     env.pop("VERIF_NUMBA_PRIVATE", None)
     env.pop("NUMBA_CACHE_DIR", None)
+    # temporary files of the workers (e.g. multiprocessing's fork-server sockets) live and die with the run
+    os.makedirs(os.path.join(work, "tmp"))
+    env["TMPDIR"] = os.path.join(work, "tmp")
     for v in ("OMP_NUM_THREADS", "NUMBA_NUM_THREADS", "OPENBLAS_NUM_THREADS", "MKL_NUM_THREADS",
               "BLOSC_NTHREADS"):
         env.setdefault(v, "1")
